@@ -230,6 +230,30 @@ pub fn c07(tier: &str, seed: u64, known: &[String]) -> Report {
             rep.check("C07.oklch.reverse", maxabs3([back.l, back.a, back.b], [got.l, got.a, got.b]) <= 1e-9, || format!("{} oklab -> oklch -> oklab ({:e},{:e},{:e})", c(rgb), back.l, back.a, back.b));
         }
     });
+    // structured in-gamut values for the reverse direction: exact greys (a = b = 0 exactly, which no forward image has) and
+    // near-black colours.  Compared in linear light (2e-6) AND in encoded sRGB (5e-4: five times what the 1e-9 residues of the
+    // published inverse matrices cause at a zero channel), so that a flush of small linear values to zero is seen
+    for l in [0.0, 0.002, 0.0095, 0.02, 0.05, 0.1, 0.25, 0.5, 0.75, 0.9, 1.0] {
+        let lin = linear_from_oklab([l, 0.0, 0.0]);
+        let s = Srgb::from(OkLab { l, a: 0.0, b: 0.0 });
+        let enc = [lin[0].max(0.0).powf(1.0 / 2.2), lin[1].max(0.0).powf(1.0 / 2.2), lin[2].max(0.0).powf(1.0 / 2.2)];
+        rep.check("C07.oklab.reverse_random", maxabs3([s.r.powf(2.2), s.g.powf(2.2), s.b.powf(2.2)], [lin[0].max(0.0), lin[1].max(0.0), lin[2].max(0.0)]) <= 2e-6 && maxabs3([s.r, s.g, s.b], enc) <= 5e-4,
+            || format!("grey oklab ({:e},0,0) -> srgb ({:e},{:e},{:e}) want ({:e},{:e},{:e})", l, s.r, s.g, s.b, enc[0], enc[1], enc[2]));
+        let s2 = Srgb::from(OkLab::from(OkLch { l, c: 0.0, h: 1.0 }));
+        rep.check("C07.oklch.reverse_random", maxabs3([s2.r, s2.g, s2.b], enc) <= 5e-4, || format!("grey oklch ({:e},0,1) -> srgb ({:e},{:e},{:e}) want ({:e},{:e},{:e})", l, s2.r, s2.g, s2.b, enc[0], enc[1], enc[2]));
+    }
+    {
+        let mut rng2 = Rng::new(seed ^ 0xC0707);
+        for i in 0..(if tier == "thorough" { 200_000 } else { 20_000 }) {
+            let scale = [1e-2, 1e-3, 1e-4, 1e-5, 1e-6, 1e-7][i % 6];
+            let lin = [rng2.unit() * scale, rng2.unit() * scale, rng2.unit() * scale];
+            let lab = oklab_from_linear(lin);
+            let s = Srgb::from(OkLab { l: lab[0], a: lab[1], b: lab[2] });
+            let enc = [lin[0].powf(1.0 / 2.2), lin[1].powf(1.0 / 2.2), lin[2].powf(1.0 / 2.2)];
+            rep.check("C07.oklab.reverse_random", maxabs3([s.r.powf(2.2), s.g.powf(2.2), s.b.powf(2.2)], lin) <= 2e-6 && maxabs3([s.r, s.g, s.b], enc) <= 5e-4,
+                || format!("dark oklab ({:e},{:e},{:e}) -> srgb ({:e},{:e},{:e}) want ({:e},{:e},{:e})", lab[0], lab[1], lab[2], s.r, s.g, s.b, enc[0], enc[1], enc[2]));
+        }
+    }
     // direct Srgb lattice + random in-gamut OkLab triples for the reverse direction
     let mut rng = Rng::new(seed ^ 0xC07);
     for _ in 0..(if tier == "thorough" { 500_000 } else { 30_000 }) {
